@@ -448,35 +448,44 @@ theorem unreached_lt (reach new : Names) (x : String) (hx : x ∈ new) (hxr : ¬
         · simp [ha, ha2]; simp at ih; omega
         · simp [ha, ha2]; simpa using ih
 
+/-- functions of the file called from `reach` and not yet in it -/
+def newOf (fs : List GFunc) (fns reach : Names) : Names :=
+  (calleesOf fs fns reach).filter (fun x => fns.contains x && !(reach.contains x))
+
 /-- the set the worklist of `prune_dead_functions` computes: least set containing `reach` and
     closed under "callee that is a function of the file".  (The Rust pops a stack; the result is
     a set used only through `contains`, so the visiting order does not show.) -/
 def closure (fs : List GFunc) (fns : Names) (reach : Names) : Names :=
-  let new := (calleesOf fs fns reach).filter (fun x => fns.contains x && !(reach.contains x))
-  match h : new with
-  | [] => reach
-  | x :: _ => closure fs fns (reach ++ new)
+  if newOf fs fns reach = [] then reach else closure fs fns (reach ++ newOf fs fns reach)
 termination_by unreached fns reach
 decreasing_by
-  have hx : x ∈ new := by rw [h]; exact List.mem_cons_self ..
-  have hx' := hx
-  simp only [new, List.mem_filter, Bool.and_eq_true, Bool.not_eq_true', List.contains_iff_mem] at hx'
-  have hnr : ¬ x ∈ reach := by
-    intro hm
-    have := hx'.2.2
-    simp [hm] at this
-  exact unreached_lt reach new x hx hnr fns (by simpa using hx'.2.1)
+  rename_i h
+  cases hn : newOf fs fns reach with
+  | nil => exact absurd hn h
+  | cons x t =>
+    have hx : x ∈ newOf fs fns reach := by rw [hn]; exact List.mem_cons_self ..
+    have hx' := hx
+    simp only [newOf, List.mem_filter, Bool.and_eq_true, Bool.not_eq_true', List.contains_iff_mem] at hx'
+    have hnr : ¬ x ∈ reach := by
+      intro hm
+      have := hx'.2.2
+      simp [hm] at this
+    rw [← hn]
+    exact unreached_lt reach _ x hx hnr fns (by simpa using hx'.2.1)
+
+/-- the `filter` of `prune_dead_functions`: functions stay when reachable, other items always -/
+def keepItem (reach : Names) : GItem → Bool
+  | .func g => reach.contains g.name
+  | _ => true
+
+/-- the names `prune_dead_functions` finds reachable from the roots -/
+def reachable (f : GFile) : Names :=
+  let fns := f.funcs.map (·.name)
+  closure f.funcs fns (Goml.Gen.dceRoots.filter (fun r => fns.contains r))
 
 /-- `prune_dead_functions` -/
 def pruneDeadFunctions (f : GFile) : GFile :=
-  let fs := f.funcs
-  if fs.isEmpty then f else
-  let fns := fs.map (·.name)
-  let roots := Goml.Gen.dceRoots.filter (fun r => fns.contains r)
-  let reach := closure fs fns roots
-  { items := f.items.filter fun
-      | .func g => reach.contains g.name
-      | _ => true }
+  if f.funcs.isEmpty then f else { items := f.items.filter (keepItem (reachable f)) }
 
 /-! ### `prune_unused_imports` (`collect_packages_*`) -/
 
